@@ -417,7 +417,7 @@ def call(fn, recorder=None):
         frames = traceback.extract_tb(tb)
         last = frames[-1].filename.replace("\\", "/") if frames else ""
         where = pdesy_frame(tb)
-        in_harness = "/dst/" in last and "/pDESy/" not in last
+        in_harness = "/dst/" in last and "/pDESy/" not in last and not getattr(e, "_verif_env", False)
         if where is None or in_harness:
             seams.CUR = prev
             raise HarnessError("harness exception: %r\n%s" % (e, "".join(traceback.format_tb(tb))))
